@@ -137,12 +137,12 @@ CHECKS['C17'] = {
     'level_text': 'Unbounded deductive proof (Verus) on the verbatim text of compile() from the declaration of output_pipelines to its end (rewrites X7, N4, N6) and of build_pipeline: '
                   'on success compile returns exactly one result in no-pipeline mode, otherwise one result per pipeline definition of the module in source order, or exactly the result for the '
                   'definition with the requested name; a requested name that no definition has, and a file without pipelines outside no-pipeline mode, give an error; the panic for several '
-                  'pipelines of one name is unreachable when names are distinct (which the type checker now enforces; its guard find_pipeline_location is under contract). build_pipeline determines '
+                  'pipelines of one name and the assert in Module::select_pipeline are unreachable when names are distinct (which the type checker now enforces; its guard find_pipeline_location is under contract). build_pipeline determines '
                   'source bytes, stages (kind, entry point, thread-group size), metadata and pipeline state as functions of target, module, binding parameters and the pipeline definition; '
                   'lemma: the result of compiling a pipeline by name is the result the whole-file compilation returns at the position of its definition.',
     'level_note': 'Partial: NOT decided - that results do not depend on the other pipelines defined in the file (the whole module, other pipelines included, is an input of every stage); the front half of compile() '
                   '(preprocess, parse, type check, layout validation; dropped by X7) is assumed not to read pipeline_name and to be deterministic; the Metal bytecode target (external compiler) is excluded from the '
-                  'agreement lemma. Assumed: every compiler stage called by build_pipeline is a function of its inputs (select_pipeline, assign_api_bindings, exporters), select_pipeline finds a defined name, '
+                  'agreement lemma. Assumed: the compiler stages called by build_pipeline are functions of their inputs (assign_api_bindings, exporters, Metal compiler; Module::select_pipeline is verified: rewrite N8 for its enumerate loop), '
                   'String ==/!= &str compare the texts, an iterator model for `for x in &vec` (slice::Iter, rewrite N4), String + &String is concatenation (rewrite N5), format! arguments have no precondition, '
                   'derived Clone = identity. Precondition: pipeline names of the module are distinct (that parse_pipeline calls its guard before appending is not verified).',
 }
